@@ -59,6 +59,29 @@ func judgeC09Script(c *SrvCase, obs *SrvObs, o *Outcome) {
 	if negotiated {
 		o.Class("negotiation-stage")
 	}
+	// cleartext glued behind the choice that switched the connection to tls must not be acted upon: everything after the
+	// confirmation travels under the negotiated encryption
+	m := RunServerModel(c, observedNegotiation(obs))
+	for _, gi := range m.GluedDropped {
+		o.Class("cleartext-glued-to-tls-choice")
+		o.NonTrivial = true
+		g := &c.Script[gi]
+		ps, pc := presented(g)
+		laterSame := false
+		for j := gi + 1; j < len(c.Script); j++ {
+			if qs, qc := presented(&c.Script[j]); c.Script[j].Kind == "session" && c.Script[j].State == "authenticating" && qs == ps && qc == pc {
+				laterSame = true // the same credentials also travel under TLS later: a callback for them proves nothing
+			}
+		}
+		if laterSame || !obs.PeerTLS {
+			continue
+		}
+		for _, e := range obs.Log {
+			if e.Call == "auth" && e.Scheme == ps && e.Cred == pc {
+				o.Fail("C09/cleartext-acted-upon-after-tls-confirmation", "the peer wrote credentials (%s,%q) in cleartext in the same write as its choice of tls and never sent them under TLS, yet Authenticate ran for them (transport encryption at that time: %q)", ps, pc, e.Enc)
+			}
+		}
+	}
 	// a choice outside the offer must be answered with failed (when a negotiation stage was open)
 	if negotiated {
 		for i := range c.Script {
@@ -152,6 +175,41 @@ func TestC09Script(t *testing.T) {
 				judgeC09Script(c, obs, o)
 				rec.Eval(c, o)
 			})
+			// a pipelining peer: every authenticating symbol written in cleartext in the same write as the choice of tls,
+			// alone and followed by each authenticating symbol sent properly under TLS
+			if cfg.Transport != "tcp-tls" || !containsStr(cfg.Enc, "tls") {
+				continue
+			}
+			var auths []CSym
+			for _, x := range alpha {
+				if x.Kind == "session" && x.State == "authenticating" && x.ID == "sid" && decodableSym(&x) {
+					auths = append(auths, x)
+				}
+			}
+			first := CSym{Kind: "session", State: "new", ID: "none", From: peerFrom}
+			choice := CSym{Kind: "session", State: "negotiating", ID: "sid", Comp: "none", Enc: "tls", DoTLS: true, From: peerFrom}
+			for _, g := range auths {
+				g.Glued = true
+				scripts := [][]CSym{{first, choice, g}}
+				for _, a := range auths {
+					scripts = append(scripts, []CSym{first, choice, g, a})
+				}
+				for _, sc := range scripts {
+					idx++
+					if idx%nsh != sh {
+						continue
+					}
+					c := &SrvCase{Cfg: cfg, Script: sc, End: "eof"}
+					o := &Outcome{}
+					o.Class("transport=" + c.Cfg.Transport)
+					o.Class("enc=" + strings.Join(c.Cfg.Enc, "+"))
+					var obs *SrvObs
+					rec.Journal(c)
+					synctest.Test(t, func(t *testing.T) { obs = RunServerScript(c) })
+					judgeC09Script(c, obs, o)
+					rec.Eval(c, o)
+				}
+			}
 		}
 	}
 	rec.Note("exhaustive", "true")
